@@ -355,6 +355,7 @@ func runScanWalk(c *swCase, mode, nmName, tmp string, faultKind int) (obs swObs)
 			os.Mkdir(rootDir, 0755)
 			os.WriteFile(filepath.Join(base, "linktarget"), []byte("LT"), 0644)
 			os.WriteFile(filepath.Join(base, "linktarget-big"), bigTarget, 0644)
+			os.Mkdir(filepath.Join(base, "linktarget-dir"), 0755)
 			for _, n := range c.Nodes {
 				cp := filepath.Join(rootDir, filepath.FromSlash(mapPath(n.P, nm)))
 				os.MkdirAll(filepath.Dir(cp), 0755)
@@ -365,6 +366,8 @@ func runScanWalk(c *swCase, mode, nmName, tmp string, faultKind int) (obs swObs)
 					os.Symlink(filepath.Join(base, "linktarget"), cp)
 				case "linkbig":
 					os.Symlink(filepath.Join(base, "linktarget-big"), cp)
+				case "linkdir":
+					os.Symlink(filepath.Join(base, "linktarget-dir"), cp)
 				case "special":
 					syscall.Mkfifo(cp, 0644)
 				default:
@@ -388,7 +391,7 @@ func runScanWalk(c *swCase, mode, nmName, tmp string, faultKind int) (obs swObs)
 			if k == "dir" {
 				m.nodes[cp].data = nil
 			}
-			if k == "link" || k == "linkbig" {
+			if k == "link" || k == "linkbig" || k == "linkdir" {
 				m.nodes[cp].data = []byte("->t") // what Lstat-like information reports: the link text
 			}
 			par := path.Dir(n.P)
